@@ -1208,6 +1208,55 @@ func occupied(sq square.Square) int {
 	return n
 }
 
+// basicWellFormed: the part of C03 that needs nothing but the square: side a power of two up to the maximum,
+// side*side shares of 512 bytes in non-decreasing namespace order, each compact region exactly one sequence
+// (start flag on its first share only, declared length needing exactly its shares). "" = well formed.
+func basicWellFormed(sq square.Square, maxSide int) string {
+	n := len(sq)
+	side := sq.Size()
+	if !square.IsPowerOfTwo(side) || side > maxSide || side*side != n {
+		return fmt.Sprintf("square has %d shares, side %d, maximum %d", n, side, maxSide)
+	}
+	raw := sharesToBytes(sq)
+	for i := range raw {
+		if len(raw[i]) != 512 {
+			return fmt.Sprintf("share %d of the square has %d bytes, not 512", i, len(raw[i]))
+		}
+	}
+	for i := 1; i < n; i++ {
+		if bytes.Compare(raw[i-1][:29], raw[i][:29]) > 0 {
+			return fmt.Sprintf("shares %d and %d are not in non-decreasing namespace order", i-1, i)
+		}
+	}
+	for _, ns := range [][]byte{share.TxNamespace.Bytes(), share.PayForBlobNamespace.Bytes()} {
+		lo, hi := -1, -1
+		for i := range raw {
+			if bytes.Equal(raw[i][:29], ns) {
+				if lo < 0 {
+					lo = i
+				}
+				hi = i + 1
+			}
+		}
+		if lo < 0 {
+			continue
+		}
+		if raw[lo][29]&1 != 1 {
+			return fmt.Sprintf("share %d, the first of a compact region, is not a sequence start", lo)
+		}
+		for i := lo + 1; i < hi; i++ {
+			if raw[i][29]&1 != 0 {
+				return fmt.Sprintf("share %d inside a compact region is a sequence start", i)
+			}
+		}
+		declared := int(raw[lo][30])<<24 | int(raw[lo][31])<<16 | int(raw[lo][32])<<8 | int(raw[lo][33])
+		if declared > 1<<30 || sizeOf(declared) != hi-lo {
+			return fmt.Sprintf("the %d shares of a compact region are not one sequence: declared length %d", hi-lo, declared)
+		}
+	}
+	return ""
+}
+
 func streamBHist(c *Ctx) {
 	nh := c.n(700, 4000)
 	for i := 0; i < nh; i++ {
@@ -1446,6 +1495,12 @@ func streamBHist(c *Ctx) {
 			if final == nil {
 				fail("C06", "final Export returned an error or panicked")
 				return
+			}
+			if sc.class == "" {
+				// C03 on a square exported after a history of appends, exports and queries
+				if w := basicWellFormed(final, sc.max); w != "" {
+					fail("C03", "after this history the exported square is not well formed: "+w)
+				}
 			}
 			{
 				if occ := occupied(final); occ > b.CurrentSize() && len(accepted) > 0 {
